@@ -128,6 +128,8 @@ pub enum TlOp {
     /// increment(&key) / increment_keys(&[&key]) through the object's own key hasher
     IncKey(u64),
     IncKeys(u64),
+    /// continue on a clone of the estimator (it has recorded everything the original has)
+    CloneReplace,
 }
 
 #[derive(Clone, Default)]
@@ -221,6 +223,10 @@ fn tl_apply(l: &mut TinyLFU<u64>, r: &mut TlRef, cfg: &TlCfg, op: TlOp) {
             let h = l.hash_key(&k);
             l.increment_keys(&[&k]);
             r.inc(h, cfg.samples);
+        }
+        TlOp::CloneReplace => {
+            let c = l.clone();
+            *l = c;
         }
     }
 }
@@ -375,6 +381,7 @@ fn tl_ops(cfg: &TlCfg) -> Vec<TlOp> {
         v.push(TlOp::IncKey(10));
         v.push(TlOp::IncKey(11));
         v.push(TlOp::IncKeys(12));
+        v.push(TlOp::CloneReplace);
     }
     v
 }
@@ -394,6 +401,9 @@ fn tl_menu(prop: &str, tier: Tier) -> Vec<(TlCfg, usize, usize)> {
                     v.push((TlCfg { size, samples, fpr: 0.01, seeds: seeds[0], hashes: c05_hashes.clone(), key_ops: false }, if big { 200_000 } else { 20_000 }, if big { 6 } else { 3 }));
                 }
             }
+            // long sample windows: counters run into their ceiling (and beyond, if the clamp is wrong)
+            v.push((TlCfg { size: 4, samples: 80, fpr: 0.01, seeds: seeds[0], hashes: vec![2, 3], key_ops: false }, 200_000, 200));
+            v.push((TlCfg { size: 2, samples: 50, fpr: 0.01, seeds: seeds[2], hashes: vec![0, 1], key_ops: false }, 200_000, 200));
             v.push((TlCfg { size: 5, samples: 3, fpr: 0.999_999, seeds: seeds[2], hashes: c05_hashes.clone(), key_ops: false }, 20_000, 3));
             v.push((TlCfg { size: 4, samples: 4, fpr: 5e-324, seeds: seeds[3], hashes: c05_hashes.clone(), key_ops: false }, 20_000, 3));
         }
@@ -657,7 +667,11 @@ fn sl_eval(cfg: &SlCfg, hist: &[SlOp]) -> EvalOut {
             f.push(Finding::new("C20", "max_cost_round_trips", disc.clone(), format!("get_max_cost() = {} expected {} after {:?}", s.max_cost(), max, hist)));
         }
         // fill_sample
-        let inputs: Vec<Vec<(u64, i64)>> = vec![vec![], vec![(9_000_009, 9)], (0..samples as u64).map(|i| (8_000_000 + i, 1)).collect(), (0..samples as u64 + 1).map(|i| (8_000_000 + i, 1)).collect()];
+        let mut inputs: Vec<Vec<(u64, i64)>> = vec![vec![], vec![(9_000_009, 9)]];
+        if samples <= 64 {
+            inputs.push((0..samples as u64).map(|i| (8_000_000 + i, 1)).collect());
+            inputs.push((0..samples as u64 + 1).map(|i| (8_000_000 + i, 1)).collect());
+        }
         for inp in inputs {
             let got = s.fill(inp.clone());
             let want_len = if inp.len() >= samples { inp.len() } else { std::cmp::min(samples, inp.len() + map.len()) };
@@ -726,7 +740,7 @@ pub fn run_sampled(prop: &'static str, tier: Tier) -> EngineReport {
         menu.push((SlCfg { ctor, max_cost: 100, samples, costs: if big && ctor % 3 == 0 { costs_wide.clone() } else { costs_small.clone() }, hasher: if ctor % 2 == 0 { HKind::SipA } else { HKind::Zero } }, if big { 60 } else { 12 }));
     }
     // explicit sample sizes above the default as well
-    for (ctor, samples) in [(1u8, 7usize), (3, 6), (5, 8), (6, 9)] {
+    for (ctor, samples) in [(1u8, 7usize), (3, 6), (5, 8), (6, 9), (1, usize::MAX), (6, usize::MAX / 2)] {
         menu.push((SlCfg { ctor, max_cost: 10, samples, costs: vec![-3, 5], hasher: HKind::Identity }, if big { 60 } else { 10 }));
     }
     if prop == "C05" {
